@@ -49,13 +49,18 @@ def wrapEvent (e : Event) : Event := { e with acc := wrapAcc e.acc }
 
 def wrapRes (p : State × Event) : State × Event := (wrapState p.1, wrapEvent p.2)
 
-/-- the stepping thread's stale ticket is within `2^32 − cap` of the current counter -/
+/-- the stepping thread's stale ticket is within `2^32 − cap` of the current counter.
+The bounds are TIGHT per kind of call: `Push`/`Pop`/`Len` tolerate a lag of exactly
+`2^32 − cap` (one more and a stale ticket can be re-validated: `lag_tight_push` in
+Props/C01.lean), `IsFull`/`IsEmpty` need it strictly smaller (at exactly `2^32 − cap` the
+32-bit difference of the two loaded counters can equal `cap` resp. `0` on an empty resp.
+full ring: `lag_tight_isFull`). -/
 def Lag (cap : Nat) (s : State) : Pc → Prop
-  | .pushLoadSeq _ pos => s.tail - pos < W32 - cap
-  | .pushCAS _ pos _ => s.tail - pos < W32 - cap
-  | .popLoadSeq pos => s.head - pos < W32 - cap
-  | .popCAS pos _ => s.head - pos < W32 - cap
-  | .lenLoadHead t => s.tail - t < W32 - cap
+  | .pushLoadSeq _ pos => s.tail - pos ≤ W32 - cap
+  | .pushCAS _ pos _ => s.tail - pos ≤ W32 - cap
+  | .popLoadSeq pos => s.head - pos ≤ W32 - cap
+  | .popCAS pos _ => s.head - pos ≤ W32 - cap
+  | .lenLoadHead t => s.tail - t ≤ W32 - cap
   | .fullLoadHead t => s.tail - t < W32 - cap
   | .emptyLoadTail h => s.head - h < W32 - cap
   | _ => True
@@ -95,7 +100,8 @@ theorem idx_wrap {k : Nat} (hk : k ≤ 32) (M M' : Nat) (pos : Nat) :
 
 /-- every sequence number is within `cap` of the counters -/
 theorem seq_window {c : Cfg} (g : Ghost c) {s : State} (hI : Inv c s) (pos : Nat) :
-    ∃ sl, s.slots[pos % c.cap]? = some sl ∧ s.tail ≤ sl.seq + c.cap ∧ sl.seq ≤ s.head + c.cap := by
+    ∃ sl, s.slots[pos % c.cap]? = some sl ∧ s.tail ≤ sl.seq + c.cap ∧
+      (sl.seq < s.head + c.cap ∨ sl.seq ≤ s.tail) := by
   have hk : pos % c.cap < c.cap := Nat.mod_lt _ (by have := g.cap2; omega)
   obtain ⟨q, hq, p, _, hph⟩ := hI.phases _ hk
   have hHT := hI.head_le_tail
@@ -109,7 +115,8 @@ theorem seq_window {c : Cfg} (g : Ghost c) {s : State} (hI : Inv c s) (pos : Nat
     refine ⟨sl, rfl, ?_⟩
     rcases hph with ⟨a, b, d⟩ | ⟨a, b, d, _⟩ | ⟨a, b, d⟩ | ⟨a, b, d, _⟩ <;> omega
 
-theorem lenOf_wrap {cap t h : Nat} (hcap : cap < W32) (hth : t ≤ h + cap) (hlag : h - t < W32 - cap) :
+theorem lenOf_wrap {cap t h : Nat} (hcap : cap < W32) (hth : t ≤ h + cap) (hlag : h - t ≤ W32 - cap)
+    (hc0 : 0 < cap) :
     (Cfg.mk W32 cap).lenOf (t % W32) (h % W32) = (Cfg.mk 0 cap).lenOf t h := by
   simp only [Cfg.lenOf, Cfg.sub]
   have hW : (W32 = 0) = False := by simp
@@ -119,7 +126,8 @@ theorem lenOf_wrap {cap t h : Nat} (hcap : cap < W32) (hth : t ≤ h + cap) (hla
     rw [e, if_pos hle]
   · have e : (t % W32 + W32 - h % W32) % W32 = W32 - (h - t) := by omega
     rw [e, if_neg hle]
-    rw [if_pos (by omega), if_pos (by omega)]
+    rw [if_pos (show cap + 1 > cap by omega)]
+    split <;> omega
 
 theorem full_wrap {cap t h : Nat} (hcap : cap < W32) (hth : t ≤ h + cap) (hlag : h - t < W32 - cap) :
     ((Cfg.mk W32 cap).sub (t % W32) (h % W32) == cap) = ((Cfg.mk 0 cap).sub t h == cap) := by
@@ -147,6 +155,7 @@ theorem step32 {k : Nat} (hk1 : 1 ≤ k) (hk : k ≤ 31) {s : State}
     have : (2:Nat) ^ 31 = 2147483648 := by decide
     omega
   have hcap : 2 ^ k < W32 := by omega
+  have hpos : 0 < 2 ^ k := Nat.pow_pos (by omega)
   have hHT := hI.head_le_tail
   have hTc : s.tail ≤ s.head + 2 ^ k := hI.tail_le
   have hidx : ∀ pos, (Cfg.mk W32 (2 ^ k)).idx (pos % W32) = (Cfg.mk 0 (2 ^ k)).idx pos :=
@@ -173,7 +182,7 @@ theorem step32 {k : Nat} (hk1 : 1 ≤ k) (hk : k ≤ 31) {s : State}
       have hpc' : (wrapThread th).pc = .pushLoadSeq v (pos % W32) := by simp [wrapThread, hpc, wrapPc]
       obtain ⟨sl, hsl, hw1, hw2⟩ := seq_window g hI pos
       have hw1 : s.tail ≤ sl.seq + 2 ^ k := hw1
-      have hw2 : sl.seq ≤ s.head + 2 ^ k := hw2
+      have hw2 : sl.seq < s.head + 2 ^ k ∨ sl.seq ≤ s.tail := hw2
       rw [← g.idx_mod] at hsl
       have hsl' : (wrapState s).slots[(Cfg.mk W32 (2 ^ k)).idx (pos % W32)]? = some (wrapSlot sl) := by
         rw [hidx, wrap_slots_get, hsl]; rfl
@@ -208,7 +217,7 @@ theorem step32 {k : Nat} (hk1 : 1 ≤ k) (hk : k ≤ 31) {s : State}
       have hpc' : (wrapThread th).pc = .pushWrite v (pos % W32) (seq % W32) := by simp [wrapThread, hpc, wrapPc]
       obtain ⟨sl, hsl, hw1, hw2⟩ := seq_window g hI pos
       have hw1 : s.tail ≤ sl.seq + 2 ^ k := hw1
-      have hw2 : sl.seq ≤ s.head + 2 ^ k := hw2
+      have hw2 : sl.seq < s.head + 2 ^ k ∨ sl.seq ≤ s.tail := hw2
       rw [← g.idx_mod] at hsl
       have hsl' : (wrapState s).slots[(Cfg.mk W32 (2 ^ k)).idx (pos % W32)]? = some (wrapSlot sl) := by
         rw [hidx, wrap_slots_get, hsl]; rfl
@@ -219,7 +228,7 @@ theorem step32 {k : Nat} (hk1 : 1 ≤ k) (hk : k ≤ 31) {s : State}
       have hpc' : (wrapThread th).pc = .pushStore (pos % W32) (seq % W32) := by simp [wrapThread, hpc, wrapPc]
       obtain ⟨sl, hsl, hw1, hw2⟩ := seq_window g hI pos
       have hw1 : s.tail ≤ sl.seq + 2 ^ k := hw1
-      have hw2 : sl.seq ≤ s.head + 2 ^ k := hw2
+      have hw2 : sl.seq < s.head + 2 ^ k ∨ sl.seq ≤ s.tail := hw2
       rw [← g.idx_mod] at hsl
       have hsl' : (wrapState s).slots[(Cfg.mk W32 (2 ^ k)).idx (pos % W32)]? = some (wrapSlot sl) := by
         rw [hidx, wrap_slots_get, hsl]; rfl
@@ -235,7 +244,7 @@ theorem step32 {k : Nat} (hk1 : 1 ≤ k) (hk : k ≤ 31) {s : State}
       have hpc' : (wrapThread th).pc = .popLoadSeq (pos % W32) := by simp [wrapThread, hpc, wrapPc]
       obtain ⟨sl, hsl, hw1, hw2⟩ := seq_window g hI pos
       have hw1 : s.tail ≤ sl.seq + 2 ^ k := hw1
-      have hw2 : sl.seq ≤ s.head + 2 ^ k := hw2
+      have hw2 : sl.seq < s.head + 2 ^ k ∨ sl.seq ≤ s.tail := hw2
       rw [← g.idx_mod] at hsl
       have hsl' : (wrapState s).slots[(Cfg.mk W32 (2 ^ k)).idx (pos % W32)]? = some (wrapSlot sl) := by
         rw [hidx, wrap_slots_get, hsl]; rfl
@@ -270,7 +279,7 @@ theorem step32 {k : Nat} (hk1 : 1 ≤ k) (hk : k ≤ 31) {s : State}
       have hpc' : (wrapThread th).pc = .popRead (pos % W32) (seq % W32) := by simp [wrapThread, hpc, wrapPc]
       obtain ⟨sl, hsl, hw1, hw2⟩ := seq_window g hI pos
       have hw1 : s.tail ≤ sl.seq + 2 ^ k := hw1
-      have hw2 : sl.seq ≤ s.head + 2 ^ k := hw2
+      have hw2 : sl.seq < s.head + 2 ^ k ∨ sl.seq ≤ s.tail := hw2
       rw [← g.idx_mod] at hsl
       have hsl' : (wrapState s).slots[(Cfg.mk W32 (2 ^ k)).idx (pos % W32)]? = some (wrapSlot sl) := by
         rw [hidx, wrap_slots_get, hsl]; rfl
@@ -281,7 +290,7 @@ theorem step32 {k : Nat} (hk1 : 1 ≤ k) (hk : k ≤ 31) {s : State}
       have hpc' : (wrapThread th).pc = .popClear (pos % W32) (seq % W32) v := by simp [wrapThread, hpc, wrapPc]
       obtain ⟨sl, hsl, hw1, hw2⟩ := seq_window g hI pos
       have hw1 : s.tail ≤ sl.seq + 2 ^ k := hw1
-      have hw2 : sl.seq ≤ s.head + 2 ^ k := hw2
+      have hw2 : sl.seq < s.head + 2 ^ k ∨ sl.seq ≤ s.tail := hw2
       rw [← g.idx_mod] at hsl
       have hsl' : (wrapState s).slots[(Cfg.mk W32 (2 ^ k)).idx (pos % W32)]? = some (wrapSlot sl) := by
         rw [hidx, wrap_slots_get, hsl]; rfl
@@ -292,7 +301,7 @@ theorem step32 {k : Nat} (hk1 : 1 ≤ k) (hk : k ≤ 31) {s : State}
       have hpc' : (wrapThread th).pc = .popStore (pos % W32) (seq % W32) v := by simp [wrapThread, hpc, wrapPc]
       obtain ⟨sl, hsl, hw1, hw2⟩ := seq_window g hI pos
       have hw1 : s.tail ≤ sl.seq + 2 ^ k := hw1
-      have hw2 : sl.seq ≤ s.head + 2 ^ k := hw2
+      have hw2 : sl.seq < s.head + 2 ^ k ∨ sl.seq ≤ s.tail := hw2
       rw [← g.idx_mod] at hsl
       have hsl' : (wrapState s).slots[(Cfg.mk W32 (2 ^ k)).idx (pos % W32)]? = some (wrapSlot sl) := by
         rw [hidx, wrap_slots_get, hsl]; rfl
@@ -309,7 +318,7 @@ theorem step32 {k : Nat} (hk1 : 1 ≤ k) (hk : k ≤ 31) {s : State}
       simp only [hpc, PcOk] at hloc
       simp only [hpc, Lag] at hlg
       simp only [step, hth, hth', hpc, hpc', wrapRes, wrap_fin]
-      have e := lenOf_wrap (cap := 2 ^ k) (t := t) (h := s.head) hcap (by omega) (by omega)
+      have e := lenOf_wrap (cap := 2 ^ k) (t := t) (h := s.head) hcap (by omega) (by omega) hpos
       have htl : (wrapState s).head = s.head % W32 := rfl
       rw [htl, e]
       rfl
